@@ -330,6 +330,15 @@ func c14History(o *out, q0 *influxql.SelectStatement, text string) {
 				x.Val++
 			}
 		})
+		if s.Target != nil && s.Target.Measurement != nil {
+			s.Target.Measurement.Name += "!"
+			s.Target.Measurement.Database += "!"
+		}
+		for _, src := range s.Sources {
+			if m, ok := src.(*influxql.Measurement); ok {
+				m.RetentionPolicy += "!"
+			}
+		}
 	}
 	rp := map[string]interface{}{"op": "clone_history", "text": text}
 	for _, prepare := range []func(s *influxql.SelectStatement) *influxql.SelectStatement{
